@@ -29,6 +29,7 @@ import (
 	"github.com/mycoria/mycoria/frame"
 	"github.com/mycoria/mycoria/mgr"
 	"github.com/mycoria/mycoria/peering"
+	"github.com/mycoria/mycoria/state"
 
 	"verif/core"
 	"verif/ids"
@@ -100,8 +101,22 @@ func TestC05(t *testing.T) {
 		alertsS := mgr.NewAlertMgr(sender.Peer.Manager())
 		handshakeBytes := len(sendEnd.Written)
 
+		// One case in six: a long-lived link - the sender's link sequence number is
+		// about to wrap, so the batch crosses the wrap and the key rollover.
+		nearWrap := false
+		if enc := peering.VerifLinkEncryption(sendEnd.Link); enc != nil && c.Chance("near-wrap", 1, 6) {
+			back := uint32(c.Int("near-wrap.back", 2, 30))
+			h := state.EncryptionSessionTestHelper{EncryptionSession: enc}
+			h.ReglSetOut(0xFFFF_FFFF - back)
+			nearWrap = true
+			c.Class("link-sequence-wraps-in-batch")
+		}
+
 		// The batch.
 		n := c.Int("batch", 1, 40)
+		if nearWrap {
+			n = max(n, 35)
+		}
 		// One case in five is a long batch of small frames, so that copies can be
 		// replayed from around and beyond the far edge of the 64-frame window.
 		long := c.Weighted("batch.long", 4, 1) == 1
@@ -361,7 +376,21 @@ func TestC05(t *testing.T) {
 		if !cut && writeErr == nil {
 			budgetBytes := 100 * 66000
 			sentBytes := 0
+			reverseTraffic := c.Bool("reverse-traffic")
+			if reverseTraffic {
+				c.Class("reverse-traffic-during-recovery")
+			}
 			for s := 0; !sentinelSeen && !closing() && sentBytes < budgetBytes+200000; s++ {
+				if reverseTraffic {
+					// The link is used in the other direction as well while the receiver
+					// works through what the attacker left behind.
+					if rf, err := receiver.Builder.NewFrameV1(receiver.IP(), sender.IP(), frame.NetworkTraffic, nil, []byte("traffic in the other direction"), nil); err == nil {
+						_ = recvEnd.Link.Send(rf)
+						if recvEnd.WaitParked(1) == nil {
+							_ = recvEnd.Take(0)
+						}
+					}
+				}
 				size := 64
 				if desynced {
 					size = 9000
